@@ -4,6 +4,7 @@
 package qbft
 
 import (
+	"bytes"
 	"context"
 	"crypto/sha256"
 	"fmt"
@@ -386,6 +387,7 @@ func TestC05Handle(t *testing.T) {
 		kind := rapid.IntRange(0, 19).Draw(rt, "alteration")
 		level, field, how := "top", "", ""
 		parses := true
+		totalityOnly := false
 		var raw []byte
 		switch {
 		case kind < 9: // leaf alteration without re-signing
@@ -422,6 +424,29 @@ func TestC05Handle(t *testing.T) {
 			wrong := ((*target).PeerIdx + 1 + int64(rapid.IntRange(0, n-2).Draw(rt, "wrongSigner"))) % int64(n)
 			*target = resign(*target, keys[wrong])
 			field, how = "signature", "resigned_wrong_signer"
+		case kind == 11 && rapid.IntRange(0, 3).Draw(rt, "oddHash") == 0:
+			// validly re-signed part (top level or a justification) whose value hash has an odd length
+			// (1..31, 33..64 bytes). Whether such a message is taken or refused is not asserted — the member
+			// did sign it — but receiving it must not crash the handler (it runs without recover).
+			target := &m.Msg
+			if len(m.Justification) > 0 && rapid.Bool().Draw(rt, "nested") {
+				target = &m.Justification[rapid.IntRange(0, len(m.Justification)-1).Draw(rt, "just")]
+				level = "just"
+			}
+			cl := proto.Clone(*target).(*pbv1.QBFTMsg)
+			l := rapid.SampledFrom([]int{1, 2, 16, 31, 33, 48, 64}).Draw(rt, "hashLen")
+			h := bytes.Repeat([]byte{0xab}, l)
+			if rapid.Bool().Draw(rt, "preparedHash") {
+				cl.PreparedValueHash = h
+				if cl.PreparedRound == 0 {
+					cl.PreparedRound = 1
+				}
+			} else {
+				cl.ValueHash = h
+			}
+			*target = resign(cl, keys[cl.PeerIdx])
+			field, how = "hash_length", fmt.Sprintf("resigned_hash_len_%d", l)
+			totalityOnly = true
 		case kind == 11: // validly signed but violating a field rule
 			cl := proto.Clone(m.Msg).(*pbv1.QBFTMsg)
 			how = rapid.SampledFrom([]string{"type0", "type6", "round0", "round_neg", "prepared_round_neg", "duty_type0", "duty_type_big", "peer_out_of_range"}).Draw(rt, "rule")
@@ -588,6 +613,10 @@ func TestC05Handle(t *testing.T) {
 			_, _, herr = c.handle(ctx, "peer", m)
 		}()
 		inst, buf := bufState(c)
+		if totalityOnly {
+			vstat.Case(fmt.Sprintf("%s/%s/%s/%s/n%d/s%d/%v", shape, level, field, how, n, sender, duty), true, "level:"+level, "field:"+field, "kind:odd_hash_length", cls05("odd_hash_accepted", herr == nil))
+			return
+		}
 		if herr == nil {
 			rt.Fatalf("ACCEPTED: altered %s message (%s.%s, %s) was accepted by handle: %v\n differs from the valid message in: %s", shape, level, field, how, m, diffParts(m, b.msg))
 		}
@@ -802,4 +831,11 @@ func authenticVariant(a, b *pbv1.QBFTConsensusMsg, n int) bool {
 		}
 	}
 	return true
+}
+
+func cls05(name string, on bool) string {
+	if on {
+		return name
+	}
+	return ""
 }
